@@ -69,7 +69,9 @@ def run : Runner
     let (ext, _) ← splitExt impl
     let txs ← if ext == "-" then some [] else (ext.splitOn "|").mapM parseExtTx
     let block := txs.toArray
-    let s := GetMatchedIndices bloomOps 3000000 block (some m)
+    let s := GetMatchedIndices bloomOps bloomSame 3000000 block (some m)
+    -- the reference (unrepaired, exponential) scan, when it is affordable: the repaired scan must agree with it
+    let sref := GetMatchedIndicesRef bloomOps 200000 block (some m)
     let idx := sortNats s.matched
     let idxTok := natsTok idx
     let bits := C09.bitsTok s.filter
@@ -81,7 +83,11 @@ def run : Runner
         let (msg, ixs) := Merkle.buildMsg comb leaves (fun i => idx.contains i) zero32
         let one := s!"{natsTok ixs} {mmsgTok msg} {bits}"
         s!"{idxTok} {bits} {one} {one} {extractTok msg}"
-    pure { model := s!"EXT {ext} RES {res}" }
+    let refAgree := sref.outOfFuel || (sortNats sref.matched == idx && C09.bitsTok sref.filter == bits)
+    let quad := s.steps ≤ (txs.length + 1) * ((txs.foldl (fun a t => a + t.outs.length) 0) + 2)
+    pure { model := s!"EXT {ext} RES {res}",
+           prop := if !refAgree then "violated:model-bug repaired scan differs from reference scan"
+                   else if !quad then "violated:scan steps above (n+1)*(outputs+2)" else "-" }
   | _, _, _ => none
 
 end Bch.Drive.C10
